@@ -1394,6 +1394,12 @@ func c04ConsumersTotal(c *Ctx) {
 		if par == nil {
 			continue
 		}
+		// token consumers only: func(token string, …) (T, error) — the functions the machines call as opaque consumers. Other helpers are
+		// inlined into the machines and their accesses to the rest of the input are decided there (C04.R5 input-access).
+		sig, _ := c.FuncObj(fd).Type().(*types.Signature)
+		if sig == nil || sig.Results().Len() != 2 || !types.Identical(sig.Results().At(1).Type(), types.Universe.Lookup("error").Type()) || sig.Params().Len() == 0 || !isStringType(sig.Params().At(0).Type()) {
+			continue
+		}
 		n++
 		ob := c.Ob("C04.R9", name+"/total", fd.Pos())
 		paths := c.NewSX().Run(fd)
